@@ -74,3 +74,60 @@ pub(crate) fn vfs_create(
     vfs.create(path)
         .map_err(|e| ioerr(e, path, "Opening file for reading failed"))
 }
+
+/// Raw content of a dataset's indices (stored order, nothing filtered)
+#[derive(Debug, Clone, PartialEq)]
+pub struct DataSetDump {
+    pub handle: Option<usize>,
+    pub keys_len: usize,
+    pub data_len: usize,
+    /// (slot, own handle, id)
+    pub keys: Vec<(usize, Option<usize>, String)>,
+    /// (slot, own handle, id, key handle)
+    pub data: Vec<(usize, Option<usize>, Option<String>, usize)>,
+    pub key_idmap: Vec<(String, usize)>,
+    pub data_idmap: Vec<(String, usize)>,
+    pub key_data_map: Vec<(usize, usize)>,
+    pub key_data_map_len: usize,
+    pub changed: bool,
+}
+
+/// Raw content of a resource's indices (stored order, nothing filtered)
+#[derive(Debug, Clone, PartialEq)]
+pub struct ResourceDump {
+    pub handle: Option<usize>,
+    pub textlen: usize,
+    pub textselections_len: usize,
+    /// (slot, own handle, begin, end)
+    pub textselections: Vec<(usize, Option<usize>, usize, usize)>,
+    /// (position, bytepos, end2begin, begin2end)
+    pub positionindex: Vec<(usize, usize, Vec<(usize, usize)>, Vec<(usize, usize)>)>,
+    pub byte2charmap: Vec<(usize, usize)>,
+    pub changed: bool,
+}
+
+/// Raw content of every reverse index and id map of a store (stored order, nothing filtered)
+#[derive(Debug, Clone, PartialEq)]
+pub struct IndexDump {
+    pub annotations_len: usize,
+    pub resources_len: usize,
+    pub datasets_len: usize,
+    pub dataset_data_annotation_map: Vec<(usize, usize, usize)>,
+    pub textrelationmap: Vec<(usize, usize, usize)>,
+    pub resource_annotation_metamap: Vec<(usize, usize)>,
+    pub dataset_annotation_metamap: Vec<(usize, usize)>,
+    pub annotation_annotation_map: Vec<(usize, usize)>,
+    pub key_annotation_map: Vec<(usize, usize, usize)>,
+    pub key_annotation_metamap: Vec<(usize, usize, usize)>,
+    pub data_annotation_metamap: Vec<(usize, usize, usize)>,
+    pub annotation_substore_map: Vec<(usize, usize)>,
+    pub resource_substore_map: Vec<(usize, usize)>,
+    pub dataset_substore_map: Vec<(usize, usize)>,
+    pub annotation_idmap: Vec<(String, usize)>,
+    pub resource_idmap: Vec<(String, usize)>,
+    pub dataset_idmap: Vec<(String, usize)>,
+    pub substore_idmap: Vec<(String, usize)>,
+    pub datasets: Vec<(usize, DataSetDump)>,
+    pub resources: Vec<(usize, ResourceDump)>,
+    pub changed: bool,
+}
